@@ -65,6 +65,7 @@ func parkedInAcquire() (workers, parked int, dump string) {
 func runFree(cs Case) freeResult {
 	pqueue.VerifHook = nil
 	r := newRun(cs)
+	r.asyncRelease = true
 	r.yield = func(w *worker, point string, op *Op) {
 		if op == nil || op.Y {
 			runtime.Gosched()
@@ -88,7 +89,7 @@ func runFree(cs Case) freeResult {
 		}()
 	}
 	done := make(chan struct{})
-	go func() { wg.Wait(); close(done) }()
+	go func() { wg.Wait(); r.helpers.Wait(); close(done) }()
 	close(start)
 
 	res := freeResult{}
@@ -137,7 +138,7 @@ func runFree(cs Case) freeResult {
 				stuck = append(stuck, fmt.Sprintf("w%d in %s%v free-slot=%v", w.id, w.curOp, w.curQs, free))
 			}
 			p := r.progress.Load()
-			if ok && unfinished > 0 && p == last {
+			if ok && unfinished > 0 && p == last && r.helperN.Load() == 0 {
 				nw, np, _ := parkedInAcquire()
 				if nw == unfinished && np == unfinished {
 					same++
